@@ -17,6 +17,7 @@
  *   a  dyn_array    slots 0..31; kind i=int u=u8 f=float(bits as hex) b=bool s=string a=nested array t=inline struct
  *   l  list_int     m  list_string      g  gc objects (structs with child references, strings, arrays)
  *   s  nl_string_t  c  nl_cstr_* helpers   p  helpers of the generated prelude (only in build (b))
+ *   f  the string builder behind to_string (nl_fmt_sb_*, only in build (b))
  *   h  the HashMap<K,V> runtime nanoc generates per instantiation (only in build (b) with NLV_HAVE_HASHMAPS: the
  *      trivial program instantiates string/string, string/int, int/string, int/int); "hold" slots keep what
  *      get / keys / values handed out so that it can be read again after later operations on the map
@@ -164,6 +165,40 @@ static void hp_array_op(char **t, int nt) {
         }
         fputs(r == a ? " = same" : " = moved", stdout);
         A[s] = r;
+    } else if (!strcmp(op, "apA") || !strcmp(op, "apcA")) {   /* push an element of the array itself: the source aliases the store */
+        int64_t i = hp_int(t[2]);
+        DynArray *r = a;
+        switch (AK[s]) {
+            case 'i': r = dyn_array_push_int(a, dyn_array_get_int(a, i)); break;
+            case 'u': r = dyn_array_push_u8(a, dyn_array_get_u8(a, i)); break;
+            case 'f': r = dyn_array_push_float(a, dyn_array_get_float(a, i)); break;
+            case 'b': r = dyn_array_push_bool(a, dyn_array_get_bool(a, i)); break;
+            case 's': r = !strcmp(op, "apA") ? dyn_array_push_string(a, dyn_array_get_string(a, i))
+                                             : dyn_array_push_string_copy(a, dyn_array_get_string(a, i)); break;
+            case 'a': r = dyn_array_push_array(a, dyn_array_get_array(a, i)); break;
+            default:  r = dyn_array_push_struct(a, dyn_array_get_struct(a, i), a->elem_size);   /* pointer into the store */
+        }
+        fputs(r == a ? " = same" : " = moved", stdout);
+        A[s] = r;
+    } else if (!strcmp(op, "asA")) {    /* asA <s> <i> <j>: element i := element j of the same array */
+        int64_t i = hp_int(t[2]), j = hp_int(t[3]);
+        switch (AK[s]) {
+            case 'i': dyn_array_set_int(a, i, dyn_array_get_int(a, j)); break;
+            case 'u': dyn_array_set_u8(a, i, dyn_array_get_u8(a, j)); break;
+            case 'f': dyn_array_set_float(a, i, dyn_array_get_float(a, j)); break;
+            case 'b': dyn_array_set_bool(a, i, dyn_array_get_bool(a, j)); break;
+            case 's': dyn_array_set_string(a, i, dyn_array_get_string(a, j)); break;
+            case 'a': dyn_array_set_array(a, i, dyn_array_get_array(a, j)); break;
+            default:  dyn_array_set_struct(a, i, dyn_array_get_struct(a, j), a->elem_size);
+        }
+        fputs(" = ok", stdout);
+    } else if (!strcmp(op, "aT")) {     /* to_string of the array: the formatter every program carries */
+#ifdef NLV_HAVE_PRELUDE
+        fputs(" = ", stdout);
+        hp_putcstr(nl_to_string_array(a));
+#else
+        fputs(" = unsupported", stdout);
+#endif
     } else if (!strcmp(op, "apc")) {    /* push_string_copy: the argument buffer is freed right after the call */
         char *b = hp_unhex(t[2], NULL);
         DynArray *r = dyn_array_push_string_copy(a, b);
@@ -267,6 +302,8 @@ static void hp_list_int_op(char **t, int nt) {
     else if (!strcmp(op, "li")) { list_int_insert(l, (int)hp_int(t[2]), hp_int(t[3])); fputs(" = ok", stdout); }
     else if (!strcmp(op, "lr")) { printf(" = %" PRId64, list_int_remove(l, (int)hp_int(t[2]))); }
     else if (!strcmp(op, "ls")) { list_int_set(l, (int)hp_int(t[2]), hp_int(t[3])); fputs(" = ok", stdout); }
+    else if (!strcmp(op, "lpA")) { list_int_push(l, list_int_get(l, (int)hp_int(t[2]))); fputs(" = ok", stdout); }
+    else if (!strcmp(op, "liA")) { list_int_insert(l, (int)hp_int(t[2]), list_int_get(l, (int)hp_int(t[3]))); fputs(" = ok", stdout); }
     else if (!strcmp(op, "lg")) { printf(" = %" PRId64, list_int_get(l, (int)hp_int(t[2]))); }
     else if (!strcmp(op, "lx")) { list_int_clear(l); fputs(" = ok", stdout); }
     else if (!strcmp(op, "lq")) { printf(" = empty %d", list_int_is_empty(l) ? 1 : 0); }
@@ -312,6 +349,9 @@ static void hp_list_string_op(char **t, int nt) {
         memset(b, 'X', strlen(b)); free(b);
         fputs(" = ok", stdout);
     }
+    else if (!strcmp(op, "mpA")) { list_string_push(l, list_string_get(l, (int)hp_int(t[2]))); fputs(" = ok", stdout); }   /* own element as source */
+    else if (!strcmp(op, "miA")) { list_string_insert(l, (int)hp_int(t[2]), list_string_get(l, (int)hp_int(t[3]))); fputs(" = ok", stdout); }
+    else if (!strcmp(op, "msA")) { list_string_set(l, (int)hp_int(t[2]), list_string_get(l, (int)hp_int(t[3]))); fputs(" = ok", stdout); }
     else if (!strcmp(op, "mg")) { char *v = list_string_get(l, (int)hp_int(t[2])); fputs(" = ", stdout); hp_putcstr(v); }
     else if (!strcmp(op, "mx")) { list_string_clear(l); fputs(" = ok", stdout); }
     else if (!strcmp(op, "mq")) { printf(" = empty %d", list_string_is_empty(l) ? 1 : 0); }
@@ -484,6 +524,30 @@ static void hp_cstr_op(char **t, int nt) {
     free(b);
 }
 
+/* ---- the string builder behind to_string (generated into every program) --------------------------------- */
+#ifdef NLV_HAVE_PRELUDE
+static nl_fmt_sb_t FB[NSLOT];
+
+static void hp_fmt_op(char **t, int nt) {
+    const char *op = t[0];
+    int s = nt > 1 ? atoi(t[1]) : 0;
+    if (s < 0 || s >= NSLOT) { fputs(" = badslot", stdout); return; }
+    nl_fmt_sb_t *sb = &FB[s];
+    if (!strcmp(op, "fn")) { *sb = nl_fmt_sb_new((size_t)hp_int(t[2])); fputs(sb->buf ? " = ok" : " = NULL", stdout); }
+    else if (!strcmp(op, "fa")) { char *b = hp_unhex(t[2], NULL); nl_fmt_sb_append_cstr(sb, b); memset(b, 'X', strlen(b)); free(b); fputs(" = ok", stdout); }
+    else if (!strcmp(op, "fc")) { nl_fmt_sb_append_char(sb, (char)hp_int(t[2])); fputs(" = ok", stdout); }
+    else if (!strcmp(op, "fA")) { nl_fmt_sb_append_cstr(sb, nl_fmt_sb_build(sb)); fputs(" = ok", stdout); }   /* appended with its own buffer */
+    else if (!strcmp(op, "fb")) { fputs(" = ", stdout); hp_putcstr(nl_fmt_sb_build(sb)); }
+    else if (!strcmp(op, "ff")) { free(sb->buf); sb->buf = NULL; sb->len = sb->cap = 0; fputs(" = ok", stdout); return; }
+    else { fputs(" = badop", stdout); return; }
+    /* the terminator must lie inside the claimed capacity, and the claimed capacity must be there */
+    if (sb->buf && sb->cap > 0) { volatile char *d = sb->buf; char c = d[sb->cap - 1]; (void)c; }
+    printf(" | len=%zu fits=%d z=%d", sb->len, sb->len + 1 <= sb->cap ? 1 : 0, sb->buf && sb->len < sb->cap && sb->buf[sb->len] == 0 ? 1 : 0);
+}
+#else
+static void hp_fmt_op(char **t, int nt) { (void)t; (void)nt; fputs(" = unsupported", stdout); }
+#endif
+
 /* ---- generated HashMap<K,V> ------------------------------------------------------------------------------ */
 #ifdef NLV_HAVE_HASHMAPS
 static void *HM[NSLOT];
@@ -603,6 +667,7 @@ int main(void) {
                 case 's': hp_str_op(tok, nt); break;
                 case 'c': case 'p': hp_cstr_op(tok, nt); break;
                 case 'h': hp_hashmap_op(tok, nt); break;
+                case 'f': hp_fmt_op(tok, nt); break;
                 default: fputs(" = badop", stdout);
             }
         }
